@@ -1223,11 +1223,19 @@ func (w *World) applyHop(op Op) *Violation {
 		}
 		imp.Close()
 	}
-	// continue through a fresh handle, as state sync does
-	w.newTree()
-	lv, err := w.Tree.Load()
-	if err != nil || lv != n {
-		return w.viol("hop.load", "Load after import = %d,%v want %d", lv, err, n)
+	if op.Read == "preused" || op.Read == "samehandle" {
+		// the importing handle itself goes on (Importer.Commit has loaded the imported version into it)
+		if v := w.Tree.Version(); v != n {
+			return w.viol("hop.version", "after Importer.Commit the importing handle is at version %d want %d", v, n)
+		}
+		w.Labels["import_continued_on_the_importing_handle"] = true
+	} else {
+		// continue through a fresh handle, as state sync does
+		w.newTree()
+		lv, err := w.Tree.Load()
+		if err != nil || lv != n {
+			return w.viol("hop.load", "Load after import = %d,%v want %d", lv, err, n)
+		}
 	}
 	w.EverFast = !w.Cfg.SkipFast
 	w.Vers = map[int64]*VerState{n: vs}
